@@ -8,12 +8,13 @@ import numpy as np
 
 import common
 import oracles
+import replay_run
 import ticc_util as tu
 from common import show_list, frac_str
 
 LEVEL = "other"
-LEAN_PROPS = ["FastTicc.Props.C16", "FastTicc.Props.C05"]
-LEAN_HELPERS = ["FastTicc.Proofs.Result"]
+LEAN_PROPS = ["FastTicc.Props.C16", "FastTicc.Props.C05", "FastTicc.Props.Final"]
+LEAN_HELPERS = ["FastTicc.Proofs.Result", "FastTicc.Proofs.Final"]
 RULE = ("(a) synthetic models: label patterns (one run, many runs, returning labels, unused clusters, joint sequences) "
         "x MRFs with entries around the 2e-5 threshold, and a scale sweep of determinants far outside the double range; "
         "(b) completed runs: value recomputed from the final model state; non-trivial = >=2 runs of labels; distinct by input")
@@ -196,3 +197,6 @@ def run(ctx):
         runs = 1 + sum(1 for a, b in zip(labels, labels[1:]) if a != b)
         ctx.case(("cfg", repr(sorted(cfg.items()))), nontrivial=runs >= 2,
                  sample={"T": len(labels), "runs": runs, "P": P, "bic": got} if len(ctx.samples) < 6 else None)
+
+    # ---------------- (c) whole-result replay (Final.report): the BIC of a traced real run vs the composed model
+    replay_run.whole_result_section(ctx, cfgs, ("bic",), 5 if ctx.quick() else 40)
